@@ -114,6 +114,10 @@ fn obj_mode(ops: &[String]) {
 					o.sort();
 					"-".to_string()
 				}
+				"canon" => {
+					o.canonicalize();
+					"-".to_string()
+				}
 				_ => "?".to_string(),
 			}
 		}));
